@@ -13,6 +13,7 @@ import sys
 
 import numpy as np
 
+from common import NPROC as NPROC_
 from common import REPO, VERIF, source_pins, coq_bool, coq_list, coq_nat, qc, qc_list, qc_mat, sh
 
 TRUSTED_BASE = [
@@ -823,7 +824,7 @@ def oracle_optimise(d):
         for idx in (0, -1):
             _stand_in_energy_gradient(neb.images[idx], None, 1)
         x0 = [np.array(im.coordinates).flatten().copy() for im in neb.images]
-        res = neb._minimise(method=object(), n_cores=2, etol=1e-6, max_n=25)
+        res = neb._minimise(method=object(), n_cores=2, etol=1e-6, max_n=d.get("max_n", 25))
         neb.images.set_coords(res.x)
     finally:
         M.energy_gradient = orig
@@ -964,6 +965,19 @@ def guarded(kind, fn, d, nres):
         signal.signal(signal.SIGALRM, old_handler)
 
 
+SLOW = {"partition": (lambda d: oracle_partition(d), 3), "optimise": (lambda d: oracle_optimise(d), 1),
+        "from_end_points": (lambda d: oracle_from_end_points(d), 1)}
+
+
+def _slow_worker(job):
+    """One slow implementation oracle (IDPP relaxations / scipy / ProcessPool inside) in a forked worker process; the
+    result is returned together with the fields the oracle added to its input dict."""
+    kind, d = job
+    np.seterr(all="ignore")
+    res = guarded(kind, SLOW[kind][0], d, SLOW[kind][1])
+    return res, {k: v for k, v in d.items() if k.startswith("_")}
+
+
 ORACLES = {"band": lambda d: oracle_band(d)[0], "interp": lambda d: oracle_interp(d)[0],
            "from_end_points": oracle_from_end_points, "maxdist": lambda d: oracle_maxdist(d)[0],
            "partition": lambda d: oracle_partition(d)[0], "ci_sequence": oracle_ci_sequence, "config": oracle_config,
@@ -1100,7 +1114,7 @@ def all_cases(ctx):
                     natoms = min(natoms, 2)
                 bands.append(gen_band(rng, m, natoms, profile))
     for profile in PROFILES:
-        for _ in range(12 if full else 4):
+        for _ in range(12 if full else 2):
             triples.append(gen_band(rng, 3, rng.choice([1, 2, 3]) if full else rng.choice([1, 2]), profile))
     # energy triples covering every ordering / tie pattern exactly once more
     for (a, b, c) in [(0, 1, 2), (2, 1, 0), (0, 2, 1), (1, 2, 0), (1, 0, 2), (2, 0, 1), (1, 1, 1), (1, 2, 1), (1, 0, 1),
@@ -1137,7 +1151,7 @@ def all_cases(ctx):
                {"init_k": 0.1, "min_k": 0.05, "max_k": 0.2}, {"init_k": 0.1, "min_k": 0.2, "max_k": 0.15}]
     for m in range(3, mmax + 1):
         for pattern in UNIT_PATTERNS:
-            for profile in (["up", "down", "peak", "valley"] if full else [rng.choice(["peak", "valley"]), rng.choice(["up", "down", "peak"])]):
+            for profile in (["up", "down", "peak", "valley"] if full else [rng.choice(["peak", "valley", "up", "down"])]):
                 mixed.append(gen_mixed_band(rng, m, rng.choice([1, 2]), profile, pattern))
     interps = []
     for name, (labels, a, b) in MOLS.items():
@@ -1176,15 +1190,16 @@ def all_cases(ctx):
         nat = len(labels)
         mid = [(x + y) / 2 + (0.15 if i % 3 == 1 else 0.0) for i, (x, y) in enumerate(zip(a, b))]
         for coords in ([a, b], [a, mid, b]) + (([a, mid, b, [y + 0.3 for y in b]],) if full else ()):
-            for md in ([0.12, 0.2, 0.35, 2.0] if full else [0.2, 0.45]):
+            for md in ([0.12, 0.2, 0.35, 2.0] if full else ([0.3, 0.45] if name == "H3" else [0.2, 0.45])):
                 for idxs in ([None, [nat - 1], [0, 1][:nat]] if full else [None, [nat - 1]]):
                     parts.append({"mol": name, "labels": labels, "coords": [list(map(float, c)) for c in coords],
                                   "max_delta": md, "idxs": idxs})
     parts.append({"mol": "H2", "labels": ["H", "H"], "coords": [list(map(float, MOLS["H2"][1]))], "max_delta": 0.2, "idxs": None})
     # FINE partitions: (separation of the selected atom between adjacent images) / max_delta = 40..58, i.e. 40-60 images
     # have to be inserted between two original images (one selected atom on H2/H3 keeps from_end_points cheap)
-    fine = [("H3", ["H", "H", "H"], [[0, 0, 0, 0.9, 0, 0, 3.2, 0, 0], [0, 0, 0, 1.4, 0, 0, 3.2, 0, 0]], 0.0125, [1]),   # ratio 40
-            ("H2", ["H", "H"], [[0, 0, 0, 0.8, 0, 0], [0, 0, 0, 1.3, 0, 0]], 0.01, [1])]                                 # ratio 50
+    fine = [("H3", ["H", "H", "H"], [[0, 0, 0, 0.9, 0, 0, 3.2, 0, 0], [0, 0, 0, 1.4, 0, 0, 3.2, 0, 0]], 0.0125, [1]) if full else
+            ("H2", ["H", "H"], [[0, 0, 0, 0.75, 0, 0], [0, 0, 0, 1.2, 0.1, 0]], 0.012, [1]),                             # ratio 40 (quick: H2, 38)
+            ("H2", ["H", "H"], [[0, 0, 0, 0.8, 0, 0], [0, 0, 0, 1.3, 0, 0]], 0.01 if full else 0.0139, [1])]            # ratio 50 (quick: 36)
     if full:
         fine += [("H2", ["H", "H"], [[0, 0, 0, 0.8, 0, 0], [0, 0, 0, 1.25, 0.2, 0]], 0.0086, [1]),                        # ratio ~57
                  ("H2", ["H", "H"], [[0, 0, 0, 0.8, 0, 0], [0, 0, 0, 1.3, 0, 0]], 0.004, [1]),                            # ratio 125
@@ -1199,9 +1214,12 @@ def all_cases(ctx):
         parts.append({"mol": "H2-" + unit, "labels": ["H", "H"], "coords": h2, "max_delta": 0.3, "idxs": [1], "max_delta_unit": unit})
     # the IDPP relaxation of one trial band fails (RuntimeError, tolerated by partition): the bound must still hold
     h3 = MOLS["H3"]
-    for md, k, idxs in ([(0.1, 3, None), (0.15, 2, [1]), (0.12, 4, None)] if full else [(0.1, 3, None), (0.15, 2, [1])]):
+    for md, k, idxs in ([(0.1, 3, None), (0.15, 2, [1]), (0.12, 4, None), (0.14, 2, [1])] if full else [(0.14, 2, [1])]):
         parts.append({"mol": "H3-idpp-fails", "labels": h3[0], "coords": [list(map(float, h3[1])), list(map(float, h3[2]))],
                       "max_delta": md, "idxs": idxs, "fail_calls": [k]})
+    for md, k in [(0.2, 2), (0.16, 3)]:          # the same fault on H2 (cheap): separation / max_delta is not an integer
+        parts.append({"mol": "H2-idpp-fails", "labels": ["H", "H"], "coords": [list(map(float, MOLS["H2"][1])), list(map(float, MOLS["H2"][2]))],
+                      "max_delta": md, "idxs": [1], "fail_calls": [k]})
     parts.append({"mol": "H3-cineb", "labels": h3[0], "coords": [list(map(float, h3[1])), list(map(float, h3[2]))],
                   "max_delta": 0.25, "idxs": [1], "cineb": True})
     parts.append({"mol": "H2O-cineb", "labels": MOLS["H2O"][0], "coords": [list(map(float, MOLS["H2O"][1])), list(map(float, MOLS["H2O"][2]))],
@@ -1237,29 +1255,30 @@ def run(ctx):
     # (now unjustified) hand model for diagnosis, and the run cannot pass
     pinned_changed = rc == 3 and "pinned shape" in out
     ctx.cov["translator"] = {"ok": translated, "pinned_shape_changed": pinned_changed, "output": out.strip()[:900]}
+    # the inputs of this run; the slow implementation oracles (IDPP / scipy inside) start now in forked worker processes
+    # and the Coq build runs in a thread meanwhile: results are consumed below in the fixed case order (deterministic)
+    import autode  # noqa: F401  (imported before forking so that the workers share it)
+    import multiprocessing
+    from concurrent.futures import ProcessPoolExecutor, ThreadPoolExecutor
+    cases = all_cases(ctx)
+    pool = ProcessPoolExecutor(max_workers=max(2, min(6, (NPROC_ or 4) // 2)), mp_context=multiprocessing.get_context("fork"))
+    slow = {kind: [pool.submit(_slow_worker, (kind, d)) for d in cases[kind]] for kind in SLOW}
+
+    def slow_result(kind, i, d):
+        res, extra = slow[kind][i].result()
+        d.update(extra)
+        return res
+
     # 2. proofs over the regenerated model
     info = {"hygiene": [], "log_tail": out, "build_ok": False}
     proofs_ok = corr_built = False
-    if translated or pinned_changed:
-        proofs_ok, info = proofs_step(ctx)
-        ctx.log("proofs:", "ok" if proofs_ok else "BROKEN")
-        ctx.cov["print_assumptions"] = info.get("assumptions", {})
-        corr_built = proofs_ok
-        if not proofs_ok and not info["hygiene"]:
-            corr_built, _ = ctx.coq_make(["C13/Corr.vo"])   # the model may still be runnable
-            if not corr_built:
-                import os
-                from common import COQ
-                vo = lambda f: os.path.join(COQ, f + "o")  # noqa: E731
-                corr_built = all(os.path.exists(vo(f)) and os.path.getmtime(vo(f)) >= os.path.getmtime(os.path.join(COQ, f))
-                                 for f in ("C13/Base.v", "gen/C13_Gen.v", "C13/Model.v", "C13/Corr.v"))
-            ctx.log("proof failure:", info["log_tail"][-800:])
-    else:
+    proofs_future = ThreadPoolExecutor(max_workers=1).submit(proofs_step, ctx) if (translated or pinned_changed) else None
+    if not (translated or pinned_changed):
         ctx.cov["obligations"] += len(ctx.theorems_in("C13/Props.v"))
         ctx.cov["checker_cmd"] = "translator failed closed; proofs not attempted"
     # 3. implementation-side oracles on the generated inputs (always run: they give the replays)
-    cases = all_cases(ctx)
     nfail, reported = 0, {}
+
 
     def report(kind, d, fails):
         nonlocal nfail
@@ -1309,8 +1328,8 @@ def run(ctx):
     for d in cases["ci_sequence"]:
         report("ci_sequence", d, guarded("ci_sequence", oracle_ci_sequence, d, 1))
         ctx.count("impl-oracle-climbing-image-sequence", (d["band"]["m"], d["wait"], tuple(d["profiles"][0])), nontrivial=True)
-    for d in cases["optimise"]:
-        report("optimise", d, guarded("optimise", oracle_optimise, d, 1))
+    for i, d in enumerate(cases["optimise"]):
+        report("optimise", d, slow_result("optimise", i, d))
         ctx.count("impl-oracle-optimiser-path", (d["mol"], d["n"], d["cineb"]), nontrivial=bool(d.pop("_moved", False)))
     for d in cases["energy_sequence"]:
         report("energy_sequence", d, guarded("energy_sequence", oracle_energy_sequence, d, 1))
@@ -1318,8 +1337,8 @@ def run(ctx):
     for d in cases["config"]:
         report("config", d, guarded("config", oracle_config, d, 1))
         ctx.count("impl-oracle-force-constant-bounds", tuple(d.values()), nontrivial=True)
-    for d in cases["from_end_points"]:
-        report("from_end_points", d, guarded("from_end_points", oracle_from_end_points, d, 1))
+    for i, d in enumerate(cases["from_end_points"]):
+        report("from_end_points", d, slow_result("from_end_points", i, d))
         ctx.count("impl-oracle-from_end_points", (d["mol"], d["n"], d["cineb"]), nontrivial=d["n"] >= 3)
     for d in cases["maxdist"]:
         fails, got = guarded("maxdist", oracle_maxdist, d, 2)
@@ -1337,8 +1356,8 @@ def run(ctx):
         add(f"check_maxdist {tab} {coq_list([coq_nat(j) for j in sel])} {coq_list([coq_n(k) for k in range(m)])} {exp}",
             {"what": "max_atom_distance", "case": d}, "model-vs-impl-max-distance", key, nontrivial=m >= 3)
     inconsistent = 0
-    for d in cases["partition"]:
-        fails, res, pinfo = guarded("partition", oracle_partition, d, 3)
+    for i, d in enumerate(cases["partition"]):
+        fails, res, pinfo = slow_result("partition", i, d)
         report("partition", d, fails)
         if res is None:
             continue
@@ -1362,6 +1381,21 @@ def run(ctx):
     ctx.cov["oracle_timeouts"] = dict(TIMED_OUT)
     ctx.log(f"implementation oracles: {nfail} failures over "
             f"{sum(len(v) for v in cases.values())} generated inputs ({skipped_deg} degenerate-tangent bands skipped)")
+    pool.shutdown(wait=True)
+    if proofs_future is not None:
+        proofs_ok, info = proofs_future.result()
+        ctx.log("proofs:", "ok" if proofs_ok else "BROKEN")
+        ctx.cov["print_assumptions"] = info.get("assumptions", {})
+        corr_built = proofs_ok
+        if not proofs_ok and not info["hygiene"]:
+            corr_built, _ = ctx.coq_make(["C13/Corr.vo"])   # the model may still be runnable
+            if not corr_built:
+                import os
+                from common import COQ
+                vo = lambda f: os.path.join(COQ, f + "o")  # noqa: E731
+                corr_built = all(os.path.exists(vo(f)) and os.path.getmtime(vo(f)) >= os.path.getmtime(os.path.join(COQ, f))
+                                 for f in ("C13/Base.v", "gen/C13_Gen.v", "C13/Model.v", "C13/Corr.v"))
+            ctx.log("proof failure:", info["log_tail"][-800:])
     # 4. correspondence
     corr_bad, corr_err = [], None
     if corr_built:
